@@ -443,7 +443,7 @@ func genC04(seed uint64, run int, tier string) *Case {
 // (values, positions, tape) still come from the seed.
 
 var c04Shapes = []func(r rng, tier string) *Case{
-	shapeWhereSwitch, shapeTickBetweenNow, shapeTZLiteral, shapePatchShared, shapeStallCompile, shapeClockExact, shapeOrder, shapeTypedCallbacks, shapePatterns, shapeTypeHistory, shapeCallerChanges, shapeZoneElements, shapeBigWalk, shapeRootCollection, shapePermissiveLegacy, shapeLiteralSharing,
+	shapeWhereSwitch, shapeTickBetweenNow, shapeTZLiteral, shapePatchShared, shapeStallCompile, shapeClockExact, shapeOrder, shapeTypedCallbacks, shapePatterns, shapeTypeHistory, shapeCallerChanges, shapeZoneElements, shapeBigWalk, shapeRootCollection, shapePermissiveLegacy, shapeLiteralSharing, shapeSharedCollections,
 }
 
 func baseShape(r rng, tier, name string, types ...string) *genCtx {
@@ -964,6 +964,41 @@ func shapeLiteralSharing(r rng, tier string) *Case {
 			pi := r.n(len(progs))
 			k := progs[pi].v
 			ops = append(ops, Op{Kind: pick(r, []string{"eval", "eval", "string"}), Prog: pi, Res: []int{0}, Opts: []EOpt{{Kind: "var", Name: k, Var: pick(r, kinds[k])}}})
+		}
+		c.Clients = append(c.Clients, ops)
+	}
+	return c
+}
+
+// shapeSharedCollections: environment collections (with spare capacity, sub-slices, homogeneous
+// items) shared by all clients and sliced, filtered, projected and concatenated by every one of
+// them: whatever one evaluation does with such a collection, the others must see it as supplied.
+func shapeSharedCollections(r rng, tier string) *Case {
+	g := baseShape(r, tier, "shared-collections", pick(r, []string{"Patient", "Observation", "Bundle"}))
+	c := g.c
+	c.Knobs.SwitchThr = 77
+	g.genVars(3+r.n(2), 1.0)
+	g.cbs = append(g.cbs, COpt{Kind: "fn", Name: "e0", Fn: "empty"}, COpt{Kind: "fn", Name: "f2", Fn: "failkeep:2"})
+	type pi struct{ used []string }
+	var infos []pi
+	for i := 0; i < 6; i++ {
+		ps, used := g.varProgram()
+		c.Programs = append(c.Programs, ps)
+		infos = append(infos, pi{used})
+	}
+	for ci := 0; ci < 3; ci++ {
+		var ops []Op
+		for oi := 0; oi < 4; oi++ {
+			k := r.n(len(c.Programs))
+			op := Op{Kind: "eval", Prog: k, Res: []int{0}}
+			for _, n := range infos[k].used {
+				for vi, vn := range g.vname {
+					if vn == n {
+						op.Opts = append(op.Opts, EOpt{Kind: "var", Name: n, Var: vi})
+					}
+				}
+			}
+			ops = append(ops, op)
 		}
 		c.Clients = append(c.Clients, ops)
 	}
